@@ -4,7 +4,7 @@
    to /repo by the correspondence check on every run). *)
 From Coq Require Import List ZArith Lia Bool.
 From RecordUpdate Require Import RecordSet.
-From Sim Require Import Map Variant Current Kernel Queue Net Pcap SimState Sim RegistryProofs SockProofs QueueProofs RxProofs TxProofs.
+From Sim Require Import Map Variant Current Kernel Queue Net Pcap SimState Sim RegistryProofs SockProofs QueueProofs RxProofs TxProofs TxQueueProofs.
 Import ListNotations.
 Import RecordSetNotations.
 Local Open Scope Z_scope.
@@ -203,3 +203,28 @@ Theorem C05_send_packet_frames_if_forwarding_does :
               t_next_out (get_tcp (fst (tcp_send_packet cx s p w)) s) = t_next_out (get_tcp w s).
 Proof. exact send_packet_frames. Qed.
 Print Assumptions C05_send_packet_frames_if_forwarding_does.
+
+(* ---- the same with NO hypothesis about the network, for the real forwarding function, whenever the
+   first hop of the connection's route is a queue (Proofs/TxQueueProofs.v) ---- *)
+Theorem C05_forwarding_into_a_queue_changes_no_numbering :
+  forall v f now p w h rest q,
+  p_hops p = h :: rest -> mget SNone (w_sinks w) h = SQueue q ->
+  let w' := fst (forward v (S f) now p w) in
+  same_numbering w w' /\ exists q', mget SNone (w_sinks w') h = SQueue q'.
+Proof. exact forward_into_a_queue_frame. Qed.
+Print Assumptions C05_forwarding_into_a_queue_changes_no_numbering.
+
+Theorem C05_segments_of_a_write_on_queue_first_routes :
+  forall v now s h rest mss, 0 < mss -> forall fuel bufs ret w,
+  first_hop_is_a_queue h w -> t_mss (get_tcp w s) = mss ->
+  let '(r, w', c, ps) := write_loop_g (mkcx v now) fuel s (h :: rest) bufs ret w in
+  first_hop_is_a_queue h w' /\
+  exists n : nat,
+    r = ret + Z.of_nat n /\
+    concat (map p_buf ps) = firstn n (concat bufs) /\
+    Forall (seg_ok mss) ps /\
+    map p_seq ps = zcount (t_next_out (get_tcp w s)) (length ps) /\
+    t_mss (get_tcp w' s) = mss /\
+    t_next_out (get_tcp w' s) = t_next_out (get_tcp w s) + Z.of_nat (length ps).
+Proof. exact write_segments_on_queue_first_routes. Qed.
+Print Assumptions C05_segments_of_a_write_on_queue_first_routes.
